@@ -19,7 +19,10 @@ META = {
             'C01_sink_sees_last_write / C01_untouched_key_kept); histories of messages interleaved with structural '
             'edits of any pipeline of the tree (append/<</fluent, append(list), remove, clear, typed SortedPipeline '
             'calls, clear<Class>): every message is evaluated on the tree as it is at that moment (C01_steps_nth, '
-            'C01_steps_lifts, C01_steps_oracle_holds, edit locality lemmas). '
+            'C01_steps_lifts, C01_steps_oracle_holds, edit locality lemmas); children that enter the tree as COPIES of a built '
+            'pipeline object (copy constructor, operator<<(Logger *, const Pipeline &), copy assignment) are tagged in the '
+            'scenario and the tag is forgotten by the model (forget_l): C01_copy_behaves_as_original(_history), '
+            'C01_scoped_copy_restores, C01_copied_child_nesting. '
             'The theorems are about run src_cfg where src_cfg is re-read from the C++ on every run; the same '
             'function is extracted and compared event by event with the real library on generated trees.',
     'note': 'Trusted: Coq 8.16.1 kernel (vm_compute only for the closed configuration check and the examples), no '
@@ -65,7 +68,24 @@ TEXTS = ['hello', 'hello', 'bye', 'x', 't1msg', '', 'hä€', 'g:t1', 'a\U0001f6
 
 
 # ------------------------------------------------------------------------------------ trees
-# node = ('L', token) | ('Z',) | ('P', kind, [nodes])   kind in '(' '(!' '(+' '(-'
+# node = ('L', token) | ('Z',) | ('P', kind, [nodes])   kind in '(' '(!' '(+' '(-', optionally with the suffix ~<how>
+# (not on '(!'): the child enters the real tree as a COPY of a built pipeline object - 1 copy constructor of the complete
+# original, 2 the by-value helper operator<<(Logger *, const Pipeline &), 3 copy constructor of the still empty original,
+# 4 copy assignment.  The model forgets the suffix (Gallina `forget`): a copy is the original.
+def base_kind(k):
+    return k.split('~')[0]
+
+
+def with_copy(rng, kind, feat, p=0.2):
+    """~20 % of the children that can be copies are copies"""
+    if kind == '(!' or rng.random() >= p:
+        return kind
+    how = rng.choice([1, 1, 2, 3, 4] if kind != '(' else [1, 1, 3, 4])
+    feat.add('child_is_copy'); feat.add('copy_how_%d' % how)
+    feat.add('copy_of_' + ('scoped' if kind == '(+' else 'unscoped') + '_child')
+    return '%s~%d' % (kind, how)
+
+
 def render(nodes):
     out = []
     for n in nodes:
@@ -87,7 +107,7 @@ def parse(tokens):
             t = tokens[i]
             if t == ')':
                 return nodes, i + 1
-            if t in ('(', '(!', '(+', '(-'):
+            if base_kind(t) in ('(', '(!', '(+', '(-'):
                 ch, i = go(i + 1)
                 nodes.append(('P', t, ch))
             elif t == 'z':
@@ -197,7 +217,7 @@ class _GenEdits:
         rng = self.rng
         pipes = list(pipes_of(cur))
         path, kind, lst = rng.choice(pipes) if rng.random() < 0.6 else pipes[0]
-        simple = kind in ('root', '(', '(!')
+        simple = base_kind(kind) in ('root', '(', '(!')
         typed_ok = simple and not any(n[0] == 'Z' for n in lst)
         ops = ['a'] * 5 + ['r'] * 3 + ['c', 'n', 'ap']
         if typed_ok: ops += ['t'] * 8 + ['k'] * 4 + ['tp']
@@ -211,7 +231,7 @@ class _GenEdits:
             if rng.random() < 0.04: return pre + 't@z'
             n = self.edit_leaf(True); sorted_insert(lst, n); return pre + 't@' + n[1]
         if op in ('ap', 'tp'):
-            k = rng.choice(['(', '(-', '(+'] + (['(!'] if simple and op == 'ap' else []))
+            k = with_copy(rng, rng.choice(['(', '(-', '(+'] + (['(!'] if simple and op == 'ap' else [])), self.feat, 0.3)
             lst.append(('P', k, [])); return pre + ('a@' if op == 'ap' else 't@') + k
         if op == 'n':
             lst.append(('Z',)); return pre + 'n'
@@ -274,7 +294,7 @@ class Gen(_GenEdits):
             elif r < 0.6: level.append(('L', self.many(self.fresh())))
             elif r < 0.65: level.append(('Z',))
             if rng.random() < 0.3: level.append(('L', 'p:%d' % self.fresh()))
-            level.append(('P', k, inner))
+            level.append(('P', with_copy(rng, k, self.feat), inner))
             if rng.random() < 0.5: level.append(('L', 'p:%d' % self.fresh()))
             if rng.random() < 0.15: level.append(('L', 's:%d' % self.fresh()))
             inner = level
@@ -327,7 +347,7 @@ class Gen(_GenEdits):
             kind = rng.choice(['(', '(-', '(+', '(!'] if self.simple_here else ['(', '(-', '(+'])
             if rng.random() < 0.3:
                 second.insert(0, ('L', 'p:%d' % self.fresh()))
-            out.append(('P', kind, second))
+            out.append(('P', with_copy(rng, kind, self.feat), second))
             self.feat.add('loose_overwrite_in_' + ('scoped' if kind in ('(+', '(!') else 'unscoped') + '_child')
         else:
             out += second
@@ -435,7 +455,7 @@ class Gen(_GenEdits):
             if rng.random() < 0.7:
                 ch.append(('L', 's:%d' % self.fresh()))
             self.feat.add('reject_inside_child')
-        out.append(('P', kind, ch))
+        out.append(('P', with_copy(rng, kind, self.feat), ch))
         self.feat.add('scoped_child' if scoped else 'unscoped_child')
         if rng.random() < 0.6:                  # probe = first thing run after the child
             out.append(('L', 'p:%d' % self.fresh()))
@@ -586,13 +606,18 @@ def _paths(nodes, pre=()):
 
 
 def _edit(nodes, path, how):
-    """copy of the tree with the node at `path` deleted ('del') or replaced by its children ('hoist')"""
+    """copy of the tree with the node at `path` deleted ('del'), replaced by its children ('hoist') or, a child that
+    is a copy, replaced by its original ('orig')"""
     i = path[0]
     if len(path) == 1:
         if how == 'del':
             return nodes[:i] + nodes[i + 1:]
         if nodes[i][0] != 'P':
             return None
+        if how == 'orig':       # the child itself instead of a copy of it
+            if '~' not in nodes[i][1]:
+                return None
+            return nodes[:i] + [('P', base_kind(nodes[i][1]), nodes[i][2])] + nodes[i + 1:]
         return nodes[:i] + nodes[i][2] + nodes[i + 1:]
     sub = _edit(nodes[i][2], path[1:], how)
     if sub is None:
@@ -614,7 +639,7 @@ def shrink_case(tree, msgs, fails, budget=600):
             if fails(tree, cand):
                 msgs = cand; changed = True
             i -= 1
-        for how in ('del', 'hoist'):
+        for how in ('del', 'hoist', 'orig'):
             for path in reversed(list(_paths(tree))):
                 if steps >= budget:
                     break
@@ -787,7 +812,9 @@ def run():
                 'attribute set inside a scoped child + later sibling reading it, rejection inside a child + sink after it, null entries, shared objects; plus a few chains of 30-48 nested pipelines) '
                 'x 1..6 messages (repeated texts, pre-formatted, pre-attributed with typed values); attribute values of five types with overwrites of a key by a loosely-equal value of another type '
                 '(setAttribute / attribute handler, same list / scoped / unscoped child); a third of the cases are histories with 1-3 bursts of structural edits between messages '
-                '(append, operator<<, fluent, typed SortedPipeline calls, remove, clear, clear class, null entry, new child pipelines; on the root and on nested pipelines); non-trivial = has a nested pipeline and at least one delivery',
+                '(append, operator<<, fluent, typed SortedPipeline calls, remove, clear, clear class, null entry, new child pipelines; on the root and on nested pipelines); '
+                '~20 % of the (, (+, (- children (30 % of those added by edits) enter the real tree as a COPY of a built pipeline object: copy constructor of the complete / still empty original, '
+                'the by-value helper operator<<(Logger *, const Pipeline &), copy assignment onto an object with the opposite scoped flag; non-trivial = has a nested pipeline and at least one delivery',
         'corpus_cases': n_corpus, 'deep_chain_cases': n_deep, 'messages': msgs_total, 'edits': edits_total, 'edit_ops': edit_ops,
         'cases_with_edits': sum(1 for _, m in cases if any(x.startswith('@') for x in m)), 'deliveries_recorded': deliveries, 'rejections_recorded': rejections,
         'disagreements_model_vs_impl': len(dis), 'oracle_messages_evaluated_on_impl': sum(len(d) for d in digits),
